@@ -15,6 +15,11 @@ What travels with a request (`Req`):
   * `replStatus` – the `http.error.status_code` placeholder in the request's replacer (ONE
     replacer per request, shared by every copy of the request): `WithError` sets it for a
     `HandlerError` and leaves it alone for any other error;
+  * `uri`, `olds` – `RequestURI` is a string field of the request STRUCT, the URL sits behind a
+    pointer: `WithError` (`r.WithContext`) copies the struct, so every catch creates a new request
+    object that shares `path` but has its own `RequestURI`.  Running code always holds the newest
+    object (`uri`); a `Subroute.ServeHTTP` frame that catches an error resumes with ITS object —
+    the one that was newest when the frame was entered (`olds` keeps those) — and copies that;
   * `ctxErr` – the `ErrorCtxKey` context value put there by `HTTPErrorConfig.WithError`
     (`some st`, `st = 0` meaning "an error that is not a `HandlerError`").
 
@@ -35,6 +40,8 @@ structure Req where
   groups : List Nat := []
   ctxErr : Option Nat := none
   replStatus : Option Nat := none
+  uri : Nat                     -- `RequestURI` of the CURRENT request object
+  olds : List Nat := []         -- `RequestURI` of every older request object, in creation order
 deriving DecidableEq, Repr
 
 def Req.get (r : Req) : Field → Nat
@@ -43,24 +50,46 @@ def Req.get (r : Req) : Field → Nat
   | .path => r.path
   | .header => r.hdr
 
-/-- one probe-handler invocation: which handler, the path it saw, the context error it saw, the
-    `{http.error.status_code}` placeholder it saw -/
+/-- one probe-handler invocation: which handler, the URL path it saw, the context error it saw,
+    the `{http.error.status_code}` placeholder it saw, the `RequestURI` it saw -/
 structure Ev where
   id : Nat
   path : Nat
   err : Option Nat
   repl : Option Nat
+  uri : Nat
 deriving DecidableEq, Repr
 
 abbrev Trace := List Ev
 
-def ev (id : Nat) (r : Req) : Ev := ⟨id, r.path, r.ctxErr, r.replStatus⟩
+def ev (id : Nat) (r : Req) : Ev := ⟨id, r.path, r.ctxErr, r.replStatus, r.uri⟩
 
 /-- `HTTPErrorConfig.WithError(r, err)`: the error goes into the context of a shallow copy of the
     request; `http.error.status_code` is set in the shared replacer only `if handlerErr, ok :=
     err.(HandlerError)` (status 0 = not a `HandlerError`). -/
 def withError (st : Nat) (r : Req) : Req :=
   { r with ctxErr := some st, replStatus := if st = 0 then r.replStatus else some st }
+
+/-- `RequestURI` of request object number `i` (objects are numbered in creation order; the
+    current one is number `olds.length`) -/
+def objUri (r : Req) (i : Nat) : Option Nat := (r.olds ++ [r.uri])[i]?
+
+/-- a shallow copy of a request object whose `RequestURI` is `u` becomes the current object -/
+def newObject (u : Nat) (r : Req) : Req := { r with olds := r.olds ++ [r.uri], uri := u }
+
+/-- the `RequestURI` a `Subroute.ServeHTTP` frame finds in ITS request when it catches an error:
+    `frame` is the state in which the frame was entered, `r'` the state at the failure.  The
+    fallback is never used (`Props.frame_object_always_exists`). -/
+def frameUri (frame r' : Req) : Nat := (objUri r' frame.olds.length).getD frame.uri
+
+/-- Subroute.ServeHTTP on an error of its own routes: `r = sr.Errors.WithError(r, err)` with the
+    frame's `r` — shared URL and group map as mutated, the frame's own `RequestURI` -/
+def catchAt (frame : Req) (st : Nat) (r' : Req) : Req := withError st (newObject (frameUri frame r') r')
+
+/-- Server.ServeHTTP on an error: `r.RequestURI = origReq.RequestURI; cloneURL(origReq.URL, r.URL)`
+    on the server's request object, then `s.Errors.WithError(r, err)` -/
+def serverCatch (req : Req) (st : Nat) (r' : Req) : Req :=
+  withError st (newObject req.uri { r' with path := req.path })
 
 /-- where a real `error` / `static_response` handler takes its status from (`status_code`, a
     `WeakString` expanded by the replacer and parsed with `strconv.Atoi`) -/
@@ -232,7 +261,7 @@ def runHandlers : List Handler → K → K
 def runHandler : Handler → K → K
   | .pass id, k => fun r t => k r (t ++ [ev id r])
   | .respond id st, _ => fun r t => .done (t ++ [ev id r]) (some st)
-  | .rewrite id p, k => fun r t => k { r with path := p } (t ++ [ev id r])
+  | .rewrite id p, k => fun r t => k { r with path := p, uri := p } (t ++ [ev id r])
   | .fail id st, _ => fun r t => .err (t ++ [ev id r]) st r
   | .raise src, _ => fun r t => .err t (raiseStatus src r) r
   | .answer src, _ => fun r t =>
@@ -251,7 +280,7 @@ def runHandler : Handler → K → K
     | .reached r' t' => k r' t'           -- whatever the rest of the chain returns is returned as is
     | .done t' s => .done t' s
     | .err t' st r' =>
-      if hasErrs then runRoutes errs k (withError st r') t'
+      if hasErrs then runRoutes errs k (catchAt r st r') t'
       else .err t' st r'
 /-- `RouteList.Compile(next)` -/
 def runRoutes : List Route → K → K
@@ -283,7 +312,7 @@ def serve (routes : List Route) (hasErrs : Bool) (errs : List Route) (req : Req)
   | .reached _ t => ⟨t, none⟩          -- never happens (`Props.serve_chain_never_returns_marker`)
   | .err t st r' =>
     if hasErrs && !errs.isEmpty then
-      match runRoutes errs errorEmptyK (withError st { r' with path := req.path }) t with
+      match runRoutes errs errorEmptyK (serverCatch req st r') t with
       | .done t2 s2 => ⟨t2, s2⟩
       | .reached _ t2 => ⟨t2, none⟩
       | .err t2 _ _ => ⟨t2, some (writeStatus (some st))⟩
